@@ -6,5 +6,5 @@ Extraction "../_work/ocaml/ex_mem.ml"
   run_history leaked_after_scope store0 spec_history spec_bop sstore0
   local_length_char local_length_wchar local_length_char16 local_length_char32
   run_shistory s_leaked_after_scope sstate0 spec_shistory bstore0 stack_string_size
-  run_thistory t_leaked_after_scope spec_thistory with_fail scratch_base
+  swith_fail run_thistory t_leaked_after_scope spec_thistory with_fail scratch_base
   to_ssize of_ssize.
